@@ -79,6 +79,13 @@ def main():
     # 2 + 3. correspondence and predicates
     ctx = props.Context(pid=pid, seed=seed, tier=args.tier, n_override=args.n)
     try:
+        import fingerprint
+        ctx.changed_source = fingerprint.changed()
+    except Exception as e:
+        ctx.changed_source = ["fingerprint failed: %r" % e]
+    if ctx.changed_source and args.tier == "quick" and args.n is None:
+        ctx.budget = 4      # the code under the model has moved: exercise the tie harder
+    try:
         P["run"](ctx)
     except SystemExit:
         raise
@@ -147,6 +154,7 @@ def main():
         samples=ctx.samples[:3], traces_validated_against_impl=ctx.traces_validated,
         correspondence=ctx.matrix, distribution=ctx.distribution,
         footprint=P.get("footprint_doc", ""), proof_failures=aud["failures"][:10],
+        source_changed_since_model_validated=ctx.changed_source[:40], budget_multiplier=ctx.budget,
     )
     ev = dict(property_id=pid, tier=args.tier, seed=seed, level="proof", coverage=cov,
               assumptions=P.get("assumptions", []), wall_s=round(time.time() - T0, 2),
